@@ -140,11 +140,11 @@ static std::string doEngine(const std::vector<std::string>& a) {
                         eng.read(b.data(), len);
                         for (size_t i = len; i < len + 8; i++) if (b[i] != 0xEE) return "overrun";
                         back += " r:" + showHex(b.data(), len, 2); break; }
-            case 's': { XMLCh* s = 0; eng.readString(s);
-                        if (!s) back += " s:~"; else { back += " s:" + showHex(s, XMLString::stringLen(s), 4); mm->deallocate(s); }
+            case 's': { XMLCh* s = 0; XMLSize_t bl = 0, dl = 0; eng.readString(s, bl, dl);
+                        if (!s) back += " s:~"; else { back += " s:" + showHex(s, dl, 4); mm->deallocate(s); }
                         break; }
-            case 'x': { XMLByte* s = 0; eng.readString(s);
-                        if (!s) back += " x:~"; else { back += " x:" + showHex(s, strlen((char*)s), 2); mm->deallocate(s); }
+            case 'x': { XMLByte* s = 0; XMLSize_t bl = 0, dl = 0; eng.readString(s, bl, dl);
+                        if (!s) back += " x:~"; else { back += " x:" + showHex(s, dl, 2); mm->deallocate(s); }
                         break; }
             case 'S': { XMLCh* s = 0; XMLSize_t bl = 0, dl = 0; eng.readString(s, bl, dl, XSerializeEngine::toReadBufferLen);
                         if (!s) back += " S:~"; else { back += " S:" + hex64(bl, 16) + ":" + showHex(s, dl, 4); mm->deallocate(s); }
@@ -154,6 +154,8 @@ static std::string doEngine(const std::vector<std::string>& a) {
         result += back.empty() ? " -" : back;
     } catch (const XMLException& e) {
         result += " err " + exName(e);
+    } catch (const OutOfMemoryException&) {
+        result += " err OutOfMemory";       // a garbage length field: allocation fails before the read does
     }
     return result;
 }
@@ -249,7 +251,9 @@ static std::string validate(XMLGrammarPool* pool, bool schema, const std::string
     std::unique_ptr<SAX2XMLReaderImpl> p(mkParser(pool, schema, true));
     p->setContentHandler(&d);
     p->setErrorHandler(&d);
-    p->setPSVIHandler(&d);
+    // PSVI reporting is opt-in: with a PSVIHandler installed the scanner itself (IGXMLScanner::buildAttList, original pool A
+    // already) dereferences a null XSSimpleTypeDefinition for attributes of user-defined simple types of a cached grammar
+    if (getenv("C16_PSVI")) p->setPSVIHandler(&d);
     try {
         MemBufInputSource src((const XMLByte*)doc.data(), doc.size(), "file:///c16/instance.xml");
         p->parse(src);
@@ -481,8 +485,7 @@ static std::string doPool(const std::vector<std::string>& a) {
         res += " reser=" + std::string(s2.size() == s1.size() ? "samelen" : "difflen:" + std::to_string(s2.size())) +
                (ok3 ? (s3 == s1 ? ",gen3=gen1" : (s3 == s2 ? ",gen3=gen2" : ",gen3-differs")) : ",gen3-failed:" + e3);
     }
-    poolA->lockPool();
-    poolB->lockPool();
+    if (!getenv("C16_NOLOCK")) { poolA->lockPool(); poolB->lockPool(); }
     res += " grammars=" + std::to_string(grammarCount(poolA.get())) + "/" + std::to_string(grammarCount(poolB.get()));
     // 4. component model
     if (schema) {
